@@ -1,0 +1,43 @@
+//! Verification-only hooks. Compiled only with `--cfg agdb_verif`; with the
+//! flag off nothing in this module exists and shipped behaviour is unchanged.
+
+pub use crate::storage::verif_fs::File;
+pub use crate::storage::verif_fs::OpenFlags;
+pub use crate::storage::verif_fs::OpenOptions;
+pub use crate::storage::verif_fs::SimFs;
+pub use crate::storage::verif_fs::install_fs;
+pub use crate::storage::verif_fs::install_global_fs;
+pub use crate::storage::verif_storage::VerifStorage;
+
+use std::cell::RefCell;
+use std::collections::BTreeMap;
+
+type Buggify = Box<dyn FnMut(&'static str) -> bool>;
+
+thread_local! {
+    static PROBES: RefCell<BTreeMap<&'static str, u64>> = const { RefCell::new(BTreeMap::new()) };
+    static BUGGIFY: RefCell<Option<Buggify>> = const { RefCell::new(None) };
+}
+
+/// Counts that a rare branch was reached (per thread).
+pub fn hit(name: &'static str) {
+    PROBES.with(|p| *p.borrow_mut().entry(name).or_insert(0) += 1);
+}
+
+/// Returns and resets the probe counters of the current thread.
+pub fn take_probes() -> BTreeMap<&'static str, u64> {
+    PROBES.with(|p| std::mem::take(&mut *p.borrow_mut()))
+}
+
+/// Installs the simulator's coin for cooperative fault points.
+pub fn set_buggify(f: Option<Buggify>) {
+    BUGGIFY.with(|b| *b.borrow_mut() = f);
+}
+
+/// A cooperative fault point: `false` unless the simulator says otherwise.
+pub fn buggify(site: &'static str) -> bool {
+    BUGGIFY.with(|b| match b.borrow_mut().as_mut() {
+        Some(f) => f(site),
+        None => false,
+    })
+}
